@@ -234,7 +234,19 @@ bool applyEdit(NifFile& nif, const json& st, Ctx& ctx, NifFile* other) {
 		std::vector<uint32_t> seq(n); // seq[newPos] = oldIndex
 		for (uint32_t i = 0; i < n; i++) seq[i] = i;
 		std::string mode = jstr(st, "mode", (salt & 1) ? "front" : "swap");
-		if (mode == "front") {
+		if (mode == "nodes") {
+			// the node blocks themselves in another order: a child node may precede its parent, the first node of the file
+			// (what the library takes for the root) may be another one afterwards - only where a profile asks for it
+			std::vector<uint32_t> nodes;
+			for (uint32_t i = 0; i < n; i++)
+				if (hdr.GetBlock<NiNode>(i)) nodes.push_back(i);
+			if (nodes.size() < 2) return false;
+			uint32_t a = nodes[r.below(uint32_t(nodes.size()))], b = nodes[r.below(uint32_t(nodes.size()))];
+			if (a == b) return false;
+			std::swap(seq[a], seq[b]);
+			ctx.probe("edit_swap_node_blocks");
+		}
+		else if (mode == "front") {
 			uint32_t b = nonNodes[r.below(uint32_t(nonNodes.size()))];
 			seq.erase(seq.begin() + b);
 			seq.insert(seq.begin(), b);
